@@ -8,9 +8,9 @@ git -C $wt diff -- matchingproblems > $out/patch.diff
 cp $wt/demo.py $out/demo.py 2>/dev/null; cp $wt/notes.md $out/notes.md 2>/dev/null
 t_with=$(cd $wt && /venv/bin/python -m pytest -q -p no:cacheprovider 2>&1 | tail -1)
 PYTHONPATH=$wt /venv/bin/python $wt/demo.py > $out/demo_with.log 2>&1; d_with=$?
-git -C $wt stash -q -- matchingproblems
+git -C $wt apply -R $out/patch.diff
 PYTHONPATH=$wt /venv/bin/python $wt/demo.py > $out/demo_without.log 2>&1; d_without=$?
-git -C $wt stash pop -q
+git -C $wt apply $out/patch.diff
 echo "tests_with_change: $t_with | demo exit with=$d_with without=$d_without"
 # run the checks against /repo with the change applied
 if ! git -C /repo apply --check $out/patch.diff 2>/dev/null; then echo "patch does not apply to /repo"; exit 3; fi
